@@ -60,11 +60,12 @@ def isDyadic (q : Rat) : Bool := q.den.log2 ≤ 40 && q.den == 2 ^ q.den.log2
 /-- some factor of the running product is tiny but not zero (`< 1e-6`): in floats it is the result of a
 catastrophic cancellation (`u - eta_j` with `eta_j` within ulps of `u`, `1 - lam_j mu_j` with the bet at its
 cap `c/mu_j`, `c = 1 - eps`), its relative error can reach 50%, and every later entry inherits it -/
-def tinyFactor (cfg : Cfg) (test : Test) (pop : List Rat) : Bool :=
-  let raw : List XR := match test with
+def tinyFactor (cfg : Cfg) (test : Test) (pop : List Rat) (limit : Nat) : Bool :=
+  let raw0 : List XR := match test with
     | .alpha e => (match alphaTerms cfg (estim sqrtRat cfg e) pop with | .ok (_, _, T) => T | .error _ => [])
     | .betting b => (match bettingTerms cfg (bet sqrtRat cfg b) pop with | .ok (_, _, T) => T | .error _ => [])
     | _ => []
+  let raw := raw0.take limit
   ((XR.fin 1 :: raw).zip raw).any fun (a, b) =>
     match a, b with
     | .fin p, .fin q => p ≠ 0 && q ≠ 0 && absR q < absR p / 1000000
@@ -83,9 +84,16 @@ def nearEdge (cfg : Cfg) (test : Test) (x : List Rat) (alpha : Rat) (reps : Opti
       | none => [tileTo x n]
       | some tails => tails.map (fun t => (if pfx then x else []) ++ t)
     pops.any fun pop =>
-      let histNear := match run sqrtRat cfg test pop with
-        | .error _ => false
-        | .ok (_, hist) => hist.any fun h =>
+      -- only the entries up to the model's first crossing can change the estimate (an earlier float crossing
+      -- needs an entry near the risk limit among them)
+      let histOpt := match run sqrtRat cfg test pop with | .ok (_, hist) => some hist | .error _ => none
+      let limit : Nat := match histOpt with
+        | some hist => (match hist.findIdx? (fun p => XR.le p (.fin alpha)) with | some i => i + 1 | none => hist.length)
+        | none => pop.length
+      let full := limit ≥ pop.length
+      let histNear := match histOpt with
+        | none => false
+        | some hist => (hist.take limit).any fun h =>
             match h with
             | .fin p => absR (p - alpha) ≤ tol * absR alpha   -- incl. p = alpha: the float may land on either side
             | _ => false
@@ -99,12 +107,12 @@ def nearEdge (cfg : Cfg) (test : Test) (x : List Rat) (alpha : Rat) (reps : Opti
           -- equalities that hold exactly may fail in floats unless every value is a binary fraction
           let exact := exactOk && pop'.all isDyadic && isDyadic t'
           let exactU := exact && isDyadic cfg.u
-          (m.any fun mj =>
+          ((m.take limit).any fun mj =>
             (absR mj ≤ tol && (mj ≠ 0 || !exact))
             || absR (absR (cfg.u - mj) - (cfg.atol + cfg.rtol * absR mj)) ≤ tol * (if absR mj < 1 then 1 else absR mj)
             || (absR (cfg.u - mj) ≤ tol && (mj ≠ cfg.u || !exactU)))
-          || (absR (Stot - (n : Rat) * t') ≤ tol && (Stot ≠ (n : Rat) * t' || !exact))
-      histNear || mNear || tinyFactor cfg test pop
+          || (full && absR (Stot - (n : Rat) * t') ≤ tol && (Stot ≠ (n : Rat) * t' || !exact))
+      histNear || mNear || tinyFactor cfg test pop limit
 
 def jRats (l : List Rat) : Json := jArr (l.map jRat)
 
@@ -186,6 +194,41 @@ def handle (op : String) (a : Json) : R Json := do
       match f sqrtRat ctype hasMvr items r1 r2 q with
       | .ok n => pure (jOk [("n", jNat n), ("each", jArr each), ("near", Json.bool near)])
       | .error e => pure (errJ e)
+  | "audit" =>
+      -- Audit.find_sample_size over several contests: {"has_mvr", "contests": [{"audit_type", "items": [..]}], rates, quantile}
+      let hasMvr ← boolF a "has_mvr"
+      let r1 ← optRat a "rate_1"
+      let r2 ← optRat a "rate_2"
+      let q ← ratF a "quantile"
+      let rawCs ← (← arrF a "contests").mapM (fun c => do
+        pure (parseAuditType (← strF c "audit_type"), ← (← arrF c "items").mapM parseItem))
+      -- the population each per-assertion call hands to NonnegMean.sample_size, with its call arguments
+      let callOf (ctype : AuditType) (it : RawItem) : Option (List Rat) × Bool :=
+        if hasMvr then (some it.mvr, true)
+        else if ctype == .oneaudit then
+          ((match oneauditInject it.cvr r1 r2 it.a.upperBound it.a.margin with | .ok d => some d | .error _ => none), false)
+        else (popOf it.a none r1 r2, false)
+      let contests : List AContest := rawCs.map fun (ctype, raw) =>
+        { ctype := ctype, items := raw.map fun it =>
+            let (pop, _) := callOf ctype it
+            { a := it.a, proved := it.proved, mvrData := it.mvr, cvrData := it.cvr,
+              tails := resolve (pop.getD []) it.tailsIdx } }
+      let near := (rawCs.zip contests).any fun ((ctype, raw), c) =>
+        (raw.zip c.items).any fun (r, it) =>
+          if it.proved then false else
+          let (pop, pf) := callOf ctype r
+          match pop with
+          | some x => nearEdge it.a.cfg it.a.test x it.a.riskLimit it.tails pf tol exactOk
+          | none => false
+      let each : List Json := contests.map fun c =>
+        match auditContestNewSizeInj sqrtRat c.ctype hasMvr c.items r1 r2 q with
+        | .ok n => jNat n
+        | .error e => Json.str e.toStr
+      match auditFindSampleSizes sqrtRat hasMvr contests r1 r2 q with
+      | .ok sizes =>
+          let total : Json := match auditTotalNoStyle sizes with | .ok t => jNat t | .error e => Json.str e.toStr
+          pure (jOk [("sizes", jNats sizes), ("total_nostyle", total), ("near", Json.bool near)])
+      | .error e => pure (Json.mkObj [("st", Json.str "err"), ("err", Json.str e.toStr), ("each", jArr each)])
   | "raire" =>
       let mean ← ratF a "mean"
       let n ← natF a "N"
